@@ -506,4 +506,103 @@ theorem glwePackerAdd_facts (be : BE) (n : Nat) (res : G) (k : K) (hn : n % 8 = 
   refine ⟨by simp [fits, p1, n1], by simp [aligned, p2, n2], ?_⟩
   simp only [reqA, n3]; omega
 
+/-! ### relinearisation, cswap, CKKS -/
+
+theorem relinConv_facts (n : Nat) (c : Prop) [Decidable c] (aD : Nat) (hn : n % 8 = 0) :
+    fits (if c then AllocTree.take (vecBytes n 1 aD) (treeNormalize n) else .done) = true ∧
+    aligned (if c then AllocTree.take (vecBytes n 1 aD) (treeNormalize n) else .done) = true ∧
+    reqA (if c then AllocTree.take (vecBytes n 1 aD) (treeNormalize n) else .done) = (if c then vecBytes n 1 aD + normTmp n else 0) := by
+  have hV := vec_mod64 hn 1 aD
+  split <;> simp [fits, aligned, reqA, treeNormalize, hV]
+
+theorem relinearize_facts (be : BE) (n tskSize : Nat) (a : G) (t : K) (hn : n % 8 = 0) (hs : tskSize ≤ t.size) :
+    fits (treeGlweTensorRelinearize be n tskSize a t) = true ∧ aligned (treeGlweTensorRelinearize be n tskSize a t) = true ∧
+    reqA (treeGlweTensorRelinearize be n tskSize a t) ≤ tbGlweTensorRelinearize be n a t := by
+  obtain ⟨p1, p2, p3⟩ := gglweProduct_facts be n t.rankIn (ceilDiv (a.size * a.b2k) t.b2k) (t.rankOut + 1) t hn rfl rfl
+  obtain ⟨c1, c2, c3⟩ := relinConv_facts n (a.b2k ≠ t.b2k) (ceilDiv (a.size * a.b2k) t.b2k) hn
+  have hD1 := dft_mod64 be hn t.rankIn (ceilDiv (a.size * a.b2k) t.b2k)
+  have hD2 := dft_mod64 be hn (t.rankOut + 1) tskSize
+  have hm := dftBytes_mono be n (t.rankOut + 1) hs
+  have hl := reqA_loop_le (t.rankOut + 1) (treeBigNormalize be n)
+  have hla : aligned (loop (t.rankOut + 1) (treeBigNormalize be n)) = true := aligned_loop _ _ (by simp [treeBigNormalize])
+  have hlf : fits (loop (t.rankOut + 1) (treeBigNormalize be n)) = true := fits_loop _ _ (by simp [treeBigNormalize])
+  have hbn : reqA (treeBigNormalize be n) = bigNormTmp be n := by simp [treeBigNormalize]
+  unfold treeGlweTensorRelinearize tbGlweTensorRelinearize
+  simp only
+  generalize (if a.b2k ≠ t.b2k then AllocTree.take (vecBytes n 1 (ceilDiv (a.size * a.b2k) t.b2k)) (treeNormalize n) else AllocTree.done) = cv at *
+  generalize (if a.b2k ≠ t.b2k then vecBytes n 1 (ceilDiv (a.size * a.b2k) t.b2k) + normTmp n else 0) = cb at *
+  refine ⟨by simp [fits, altList, p1, c1, hlf], by simp [aligned, altList, p2, c2, hla, hD1, hD2], ?_⟩
+  simp only [reqA, altList, c3]
+  omega
+
+
+theorem cswapCore_facts (be : BE) (n : Nat) (ra rb : G) (k : K) (hn : n % 8 = 0)
+    (hb0 : 0 < k.b2k) (hd : 1 ≤ k.dsize) :
+    fits (treeCswapCore be n ra rb k) = true ∧ aligned (treeCswapCore be n ra rb k) = true ∧
+    reqA (treeCswapCore be n ra rb k) ≤
+      dftBytes be n (k.rankOut + 1) k.size +
+        max (tbExtInternal be n ⟨k.rankOut, ceilDiv (max ra.maxK rb.maxK) k.b2k, k.b2k⟩ k +
+              G.bytes n ⟨k.rankOut, ceilDiv (max ra.maxK rb.maxK) k.b2k, k.b2k⟩) (bigNormTmp be n) + bigBytes be n 1 k.size := by
+  obtain ⟨e1, e2, e3⟩ := extInternal_facts be n (k.rankOut + 1) ⟨k.rankOut, ceilDiv (max ra.maxK rb.maxK) k.b2k, k.b2k⟩ k hn rfl hb0 hd rfl
+  have hD := dft_mod64 be hn (k.rankOut + 1) k.size
+  have hG := gbytes_mod64 hn (⟨k.rankOut, ceilDiv (max ra.maxK rb.maxK) k.b2k, k.b2k⟩ : G)
+  have hB := big_mod64 be hn 1 k.size
+  have hl := reqA_loop_le (ra.rank + 1) (treeBigNormalize be n)
+  have hla : aligned (loop (ra.rank + 1) (treeBigNormalize be n)) = true := aligned_loop _ _ (by simp [treeBigNormalize])
+  have hlf : fits (loop (ra.rank + 1) (treeBigNormalize be n)) = true := fits_loop _ _ (by simp [treeBigNormalize])
+  have hbn : reqA (treeBigNormalize be n) = bigNormTmp be n := by simp [treeBigNormalize]
+  unfold treeCswapCore
+  simp only
+  refine ⟨by simp [fits, e1, hlf], by simp [aligned, e2, hla, hD, hG, hB], ?_⟩
+  simp only [reqA]; omega
+
+/-- `cswap` with both operands in the selector's radix -/
+theorem cswap_facts (be : BE) (n : Nat) (ra rb : G) (k : K) (hn : n % 8 = 0)
+    (hrad : ra.b2k = k.b2k) (hb0 : 0 < k.b2k) (hd : 1 ≤ k.dsize) :
+    fits (treeCswap be n ra rb k) = true ∧ aligned (treeCswap be n ra rb k) = true ∧
+    reqA (treeCswap be n ra rb k) ≤ tbCswap be n ra rb k := by
+  obtain ⟨c1, c2, c3⟩ := cswapCore_facts be n ra rb k hn hb0 hd
+  unfold treeCswap tbCswap
+  have hne : ¬ (ra.b2k ≠ k.b2k) := by simp [hrad]
+  simp only [if_pos hrad, if_neg hne]
+  refine ⟨c1, c2, ?_⟩
+  omega
+
+theorem ckksRotate_facts (be : BE) (n : Nat) (ct : G) (k : K) (hn : n % 8 = 0) (hin : ct.rank = k.rankIn) (hout : ct.rank = k.rankOut) :
+    fits (treeCkksRotate be n ct k) = true ∧ aligned (treeCkksRotate be n ct k) = true ∧
+    reqA (treeCkksRotate be n ct k) ≤ tbCkksRotate be n ct k := by
+  obtain ⟨a1, a2, a3⟩ := automorphism_facts be n ct ct k hn hin hout
+  have hb := tbAuto_ge_bigNorm be n ct ct k
+  have hr := rsh_le_bigNorm be n
+  unfold treeCkksRotate tbCkksRotate
+  refine ⟨by simp [fits, a1, treeGlweLsh, treeLsh], by simp [aligned, a2, treeGlweLsh, treeLsh], ?_⟩
+  simp only [reqA, treeGlweLsh, treeLsh, reqA_leaf, tbGlweShift, lshTmp, rshTmp] at *
+  omega
+
+theorem ckksPtVecZnx_facts (n : Nat) :
+    fits (treeCkksPtVecZnx n) = true ∧ aligned (treeCkksPtVecZnx n) = true ∧ reqA (treeCkksPtVecZnx n) ≤ tbCkksPtVecZnx n := by
+  unfold treeCkksPtVecZnx tbCkksPtVecZnx
+  refine ⟨by simp [altList, fits, treeGlweLsh, treeLsh, treeRsh, treeGlweNormalize, treeNormalize],
+    by simp [altList, aligned, treeGlweLsh, treeLsh, treeRsh, treeGlweNormalize, treeNormalize], ?_⟩
+  simp only [altList, reqA, treeGlweLsh, treeLsh, treeRsh, treeGlweNormalize, treeNormalize, reqA_leaf, tbGlweShift, tbGlweNormalize, lshTmp, rshTmp, normTmp]
+  omega
+
+theorem ckksEncryptSk_facts (be : BE) (n : Nat) (ct : G) (hn : n % 8 = 0) :
+    fits (treeCkksEncryptSk be n ct) = true ∧ aligned (treeCkksEncryptSk be n ct) = true ∧
+    reqA (treeCkksEncryptSk be n ct) ≤ tbCkksEncryptSk be n ct.size := by
+  obtain ⟨e1, e2, e3⟩ := glweEncryptSk_facts be n ct hn
+  obtain ⟨p1, p2, p3⟩ := ckksPtVecZnx_facts n
+  unfold treeCkksEncryptSk tbCkksEncryptSk
+  refine ⟨by simp [fits, e1, p1], by simp [aligned, e2, p2], ?_⟩
+  simp only [reqA]; omega
+
+theorem ckksDecrypt_facts (be : BE) (n : Nat) (ct : G) (hn : n % 8 = 0) :
+    fits (treeCkksDecrypt be n ct) = true ∧ aligned (treeCkksDecrypt be n ct) = true ∧
+    reqA (treeCkksDecrypt be n ct) ≤ tbCkksDecrypt be n ct.size := by
+  obtain ⟨d1, d2, d3⟩ := glweDecrypt_facts be n ct hn
+  have hV := vec_mod64 hn 1 ct.size
+  unfold treeCkksDecrypt tbCkksDecrypt tbCkksExtractPt
+  refine ⟨by simp [fits, altList, d1, treeRsh, treeLsh], by simp [aligned, altList, d2, hV, treeRsh, treeLsh], ?_⟩
+  simp only [reqA, altList, treeRsh, treeLsh, reqA_leaf]; omega
+
 end Scratch
